@@ -599,7 +599,7 @@ Definition with_uri (d : pdata) (u : uri) : pdata :=
 
 (* uriFixEmptyTrailSegment *)
 Definition fix_empty_trail (u : uri) : uri :=
-  if negb (absolutePath u) && negb (is_host_set u) then
+  if negb (is_host_set u) then
     match pathSegs u with
     | [[]] => set_pathSegs [] u
     | _ => u
